@@ -4,12 +4,14 @@ import math
 
 
 def num_eq(a, b):
+    """exact-regime comparison: integers compared exactly; the sign of zero is not visible to the
+    integer carrier of the driver (it is compared by bit pattern in the special-value streams)"""
     if isinstance(a, str) or isinstance(b, str):
         sa, sb = str(a), str(b)
         if sa == sb:
             return True
         try:
-            return float(sa) == float(sb) and not (sa in ("-0", "0") and sb in ("-0", "0") and sa != sb)
+            return float(sa) == float(sb)
         except ValueError:
             return False
     return a == b
@@ -170,7 +172,7 @@ def judge_fresh(c):
              key=("fresh", c.get("op"), ex.get("used"), ex.get("state_changed_by_use")))
 
 
-JUDGES = {"op": judge_op, "gate": judge_gate, "lookup": judge_lookup, "fresh": judge_fresh}
+JUDGES = {"op": judge_op, "bcast": judge_op, "gate": judge_gate, "lookup": judge_lookup, "fresh": judge_fresh}
 
 
 def judge(c):
